@@ -103,9 +103,10 @@ func runC26(c *fw.Ctx) {
 	}
 	base.WriteFile("/outside/x", []byte("SENTINEL-OUTSIDE"), false)
 	base.WriteFile("/outside/sub/y", []byte("SENTINEL-OUTSIDE-2"), false)
+	base.WriteFile("/wt/.git/refs/heads/main", []byte("1234567890123456789012345678901234567890\n"), false)
 	base.WriteFile("/wt/.git/hooks/pre-commit", []byte("SENTINEL-HOOK"), true)
 	base.WriteFile("/wt/untracked", []byte("u"), false)
-	sentinels := []string{"/outside/x", "/outside/sub/y", "/wt/.git/hooks/pre-commit", "/wt/.git/config"}
+	sentinels := []string{"/outside/x", "/outside/sub/y", "/wt/.git/hooks/pre-commit", "/wt/.git/config", "/wt/.git/refs/heads/main"}
 
 	blob := func(st *filesystem.Storage, s string) plumbing.Hash { return c26RawObject(st, plumbing.BlobObject, []byte(s)) }
 	var kinds []c26Kind
@@ -116,6 +117,19 @@ func runC26(c *fw.Ctx) {
 		t := t
 		kinds = append(kinds, c26Kind{"symlink->" + t, func(st *filesystem.Storage, n string) []c26Entry {
 			return []c26Entry{{"120000", n, blob(st, t)}}
+		}})
+	}
+	// deep paths below the name: when the name is (or becomes) a symlink into .git or out of the tree, the
+	// intermediate directories exist in the link's target
+	for _, deep := range [][]string{{"refs", "heads", "zz"}, {"hooks", "zz"}, {"sub", "y2"}} {
+		deep := deep
+		kinds = append(kinds, c26Kind{"dir{" + strings.Join(deep, "/") + "}", func(st *filesystem.Storage, n string) []c26Entry {
+			h := blob(st, "planted deep via "+n+"\n")
+			cur := c26Tree(st, []c26Entry{{"100644", deep[len(deep)-1], h}})
+			for i := len(deep) - 2; i >= 0; i-- {
+				cur = c26Tree(st, []c26Entry{{"40000", deep[i], cur}})
+			}
+			return []c26Entry{{"40000", n, cur}}
 		}})
 	}
 	kinds = append(kinds, c26Kind{"gitlink", func(st *filesystem.Storage, n string) []c26Entry {
@@ -239,6 +253,9 @@ func runC26(c *fw.Ctx) {
 		do("Add("+cs.name+")", func() error { _, err := wt.Add(cs.name); return err })
 		do("Add("+cs.name+"/x)", func() error { _, err := wt.Add(cs.name + "/x"); return err })
 		do("Move", func() error { _, err := wt.Move("keep", cs.name+"/moved"); return err })
+		do("Move(deep)", func() error { _, err := wt.Move("keep", cs.name+"/refs/heads/moved"); return err })
+		do("Add(deep)", func() error { _, err := wt.Add(cs.name + "/refs/heads/main"); return err })
+		do("Remove(deep)", func() error { _, err := wt.Remove(cs.name + "/hooks/pre-commit"); return err })
 		do("Remove", func() error { _, err := wt.Remove(cs.name); return err })
 		do("Clean", func() error { return wt.Clean(&git.CleanOptions{Dir: true}) })
 		do("Restore", func() error {
@@ -255,6 +272,10 @@ func runC26(c *fw.Ctx) {
 				how := "reads"
 				if op.Mutating {
 					how = "modifies"
+				} else if op.Kind == "stat" || op.Kind == "lstat" {
+					// existence probes (go-git's own leading-symlink guard stats the ancestors of a path,
+					// deepest first) reveal no content and change nothing: not "reading through" the path
+					continue
 				}
 				switch {
 				case strings.HasPrefix(view, "wt"):
